@@ -114,6 +114,10 @@ def check(run):
     for tname in ('se2fault', 'se3fault', 'r2fault'):
         behaviours.append((tname, [qy('calc_chi2'), ab(3, 1, False), qy('calc_chi2'), ab(3, 2, True), qy('calc_chi2'), qy('edge_contribs', 3), ab(4, 3, True), qy('calc_chi2'), qy('to_g2o'),
                                    {'op': 'OptCall', 'q': '-', 'target': 0, 'maxIter': 2, 'fixFirst': True, 'verbose': False, 'tol': '0', 'idx': 0, 'flag': False}, qy('calc_chi2')]))
+    # optimize(max_iter=0) (R7): an aborted call with zero complete iterations; then the session goes on
+    for tname in ('se2', 'r3', 'se3fix', 'mixed'):
+        behaviours.append((tname, [qy('calc_chi2'), dict(ab(0, 1, True), op='OptZero'), qy('calc_chi2'), dict(ab(0, 1, False), op='OptZero'), qy('edge_contribs', 2),
+                                   {'op': 'OptCall', 'q': '-', 'target': 0, 'maxIter': 2, 'fixFirst': False, 'verbose': False, 'tol': '0', 'idx': 0, 'flag': False}, qy('calc_chi2')]))
     events = []
     sessions = scenario.play(behaviours, run.seed, events, twin_every=3)
     rejects = scenario.validate(run, events)
